@@ -388,6 +388,27 @@ func (c *c09PipeConn) SetDeadline(time.Time) error      { return nil }
 func (c *c09PipeConn) SetReadDeadline(time.Time) error  { return nil }
 func (c *c09PipeConn) SetWriteDeadline(time.Time) error { return nil }
 
+// c09FlipCtx is a context that is alive at the first Err() (RoundTrip's entry check) and over at the second (its
+// check after registering, in front of the write); the second call stops until the harness lets it go, so the
+// harness can look at the registration and send frames for its id meanwhile.
+type c09FlipCtx struct {
+	context.Context
+	n       atomic.Int32
+	entered chan struct{}
+	goOn    chan struct{}
+}
+
+func (c *c09FlipCtx) Err() error {
+	switch c.n.Add(1) {
+	case 1:
+		return nil
+	case 2:
+		c.entered <- struct{}{}
+		<-c.goOn
+	}
+	return context.Canceled
+}
+
 // c09PipeWait: see c09Budget (same rule: expiry abandons the history, it is not an observation)
 var c09PipeWait = c09Budget
 
@@ -502,7 +523,7 @@ func (w *c09PipeWorld) finishWaiter(i int, r c09PipeRes) {
 func (w *c09PipeWorld) pendingOn(c int) int {
 	n := 0
 	for _, wt := range w.ws {
-		if (wt.state == "waiting" || wt.state == "cancelled" || wt.state == "writing") && wt.c == c && w.pcs[c].pending[wt.id].Load() != nil {
+		if (wt.state == "waiting" || wt.state == "cancelled" || wt.state == "writing" || wt.state == "aborting") && wt.c == c && w.pcs[c].pending[wt.id].Load() != nil {
 			n++
 		}
 	}
@@ -531,7 +552,7 @@ func (w *c09PipeWorld) runCloser(c, k int) {
 		slot := w.slotTok(ev.arg.(*responseSlot))
 		id := -1
 		for _, wt := range w.ws {
-			if wt.slot == slot && wt.c == c && (wt.state == "waiting" || wt.state == "cancelled" || wt.state == "writing") {
+			if wt.slot == slot && wt.c == c && (wt.state == "waiting" || wt.state == "cancelled" || wt.state == "writing" || wt.state == "aborting") {
 				id = wt.id
 				if wt.state == "writing" {
 					wt.boxed = true
@@ -676,12 +697,13 @@ func c09PipeScenario(r *VRand, st *VStream, stat *VStats) (ok bool, where string
 		for i := 0; i < nw; i++ {
 			w.ws = append(w.ws, &c09PipeWaiter{state: "idle", slot: -1})
 		}
-		held := map[int]bool{}   // connections whose readLoop is parked holding a slot
-		writing := map[int]int{} // connection -> waiter whose request write is being held
+		held := map[int]bool{}            // connections whose readLoop is parked holding a slot
+		writing := map[int]int{}          // connection -> waiter whose request write is being held
+		aborting := map[int]*c09FlipCtx{} // waiter -> its context, stopped in the check in front of the write
 		tagSeq := 0
 		nops := 6 + r.Intn(26)
 		for op := 0; op < nops; op++ {
-			k := r.Intn(11)
+			k := r.Intn(12)
 			if k == 9 && !r.Chance(0.25) {
 				k = r.Intn(9)
 			}
@@ -844,6 +866,69 @@ func c09PipeScenario(r *VRand, st *VStream, stat *VStats) (ok bool, where string
 					st.Emit(fmt.Sprintf("P set %d", slot), "box="+val)
 				}
 				stat.Inc("pipe.set")
+			case 11: // a RoundTrip whose context ends between its registration and its write
+				if len(aborting) > 0 && r.Chance(0.6) {
+					var is []int
+					for i := range aborting {
+						is = append(is, i)
+					}
+					sort.Ints(is)
+					i := is[r.Intn(len(is))]
+					fc := aborting[i]
+					delete(aborting, i)
+					wt := w.ws[i]
+					close(fc.goOn)
+					st.Emit(fmt.Sprintf("P abort %d", i), fmt.Sprintf("pc=leaving:%d.%d.%d.0.ctx", wt.c, wt.id, wt.slot))
+					stat.Inc("pipe.abort-before-write")
+					select {
+					case res := <-wt.done:
+						st.Emit(fmt.Sprintf("P leave %d", i), "pc=done:"+w.resStr(res, wt.c))
+						wt.state = "done"
+					case <-time.After(c09PipeWait):
+						c09Lost("a RoundTrip whose context ended before the write did not return within the budget")
+					}
+					continue
+				}
+				i := r.Intn(nw)
+				c := r.Intn(nconn)
+				if w.ws[i].state != "idle" || w.dead[c] {
+					continue
+				}
+				wt := w.ws[i]
+				known := map[int]bool{}
+				for _, o := range w.ws {
+					if o.c == c && (o.state == "waiting" || o.state == "writing" || o.state == "cancelled" || o.state == "aborting") {
+						known[o.id] = true
+					}
+				}
+				fc := &c09FlipCtx{Context: context.Background(), entered: make(chan struct{}, 1), goOn: make(chan struct{})}
+				wt.cancel, wt.c, wt.done, wt.boxed = func() {}, c, make(chan c09PipeRes, 1), false
+				tagSeq++
+				tag := c*1000 + tagSeq
+				pcn := w.pcs[c]
+				go func() {
+					m, err := pcn.RoundTrip(fc, c09PipeQuery(tag))
+					wt.done <- c09PipeRes{m, err}
+				}()
+				select {
+				case <-fc.entered:
+				case <-time.After(c09PipeWait):
+					c09Lost("a RoundTrip did not reach its context check in front of the write within the budget")
+				}
+				found := -1
+				for id := 0; id < dnsPipelineMaxIDs; id++ {
+					if !known[id] && pcn.pending[id].Load() != nil {
+						found = id
+						break
+					}
+				}
+				if found < 0 {
+					c09Lost("registration of an aborting RoundTrip not found")
+				}
+				wt.id, wt.slot, wt.state = found, w.slotTok(pcn.pending[found].Load()), "aborting"
+				aborting[i] = fc
+				st.Emit(fmt.Sprintf("P start %d %d %d %d", i, c, wt.id, wt.slot), "ok")
+				stat.Inc("pipe.start.abort-pending")
 			case 10: // the held write ends: with an error, or the request goes out
 				var cs []int
 				for c := range writing {
@@ -963,6 +1048,10 @@ func c09PipeScenario(r *VRand, st *VStream, stat *VStats) (ok bool, where string
 		w.h.releaseAll()
 		for c, i := range writing {
 			w.conns[c].gateResult <- errors.New("write failed")
+			w.ws[i].state = "waiting"
+		}
+		for i, fc := range aborting {
+			close(fc.goOn)
 			w.ws[i].state = "waiting"
 		}
 		for c := range w.pcs {
